@@ -169,6 +169,41 @@ def post_cdwf(ip, ctx, out):
                                   z3.Implies(z3.Not(ra), times.fn(0) == g['start_time'] + z3.ToReal(N) * g['dt'])))
 
 
+def scen_ff(integrate):
+    def scen(ip, repo):
+        dt, t0, step = Real('dt'), Real('start_time'), Int('step')
+        ip.assume(z3.And(dt > 0, step >= 0))
+        return {'dt': dt, 't0': t0, 'step': step, 'integrate': integrate, 'inputs': {'dt': dt, 'start_time': t0, 'step': step}}
+    return scen
+
+
+def invoke_ff(ip, repo, fref, ctx):
+    from . import c15
+    zero = z3.RealVal(0)
+    H = c15.shifted_callable('H', zero)
+
+    @model
+    def H_ignoring_field(ip2, a2, k2):
+        return ip2.call(H, [a2[0]], {})
+    gam, lop = [c15.shifted_callable('gamma0', zero)], [c15.shifted_callable('lop0', zero)]
+    plain = mkobj(repo, 'system.TimeDependentSystem', _hamiltonian=H, _gammas=gam, _lindblad_operators=lop, _dimension=Int('dim'))
+    withf = mkobj(repo, 'system.TimeDependentSystemWithField', _hamiltonian=H_ignoring_field, _gammas=gam, _lindblad_operators=lop, _dimension=Int('dim'))
+    subdiv = Int('subdiv_limit') if ctx['integrate'] else None
+    gp = repo.resolve('system.TimeDependentSystem.get_propagators')
+    p = ip.call(ip.call(gp, [plain, ctx['dt'], ctx['t0'], subdiv, Real('epsrel')], {}), [ctx['step']], {})
+    a, da = Cx(Real('a_re'), Real('a_im')), Cx(Real('da_re'), Real('da_im'))
+    q = ip.call(ip.call(fref, [withf, ctx['dt'], ctx['t0'], subdiv, Real('epsrel')], {}), [ctx['step'], a, da], {})
+    return p, q
+
+
+def post_ff(ip, ctx, out):
+    if not expect_no_other_exception(ip, out):
+        return
+    (p1, p2), (q1, q2) = out.value
+    ip.prove('sysf/field-free-equals-plain[first half]', p1 == q1)
+    ip.prove('sysf/field-free-equals-plain[second half]', p2 == q2)
+
+
 _t0 = targets
 
 
@@ -179,6 +214,14 @@ def targets(tier='quick'):
     for ns in (1, 2):
         T.append(Target('cdwf/field-sequence[nsys=%d]' % ns, 'system_dynamics.compute_dynamics_with_field',
                         dynf.cdwf_scenario(ns), post_cdwf, R, PROP, max_paths=4000, replay=replay_field))
+    # "a system whose Hamiltonian does not depend on the field evolves as in a plain TEMPO run": the propagators of a
+    # TimeDependentSystemWithField with H'(t, a) = H(t) equal those of TimeDependentSystem(H) with the same rates and Lindblad
+    # operators, for every step, field and field derivative (two-object relational contract; sampled and integrated modes)
+    from . import c15
+    for integ in (False, True):
+        T.append(Target('sysf/field-free-propagators[%s]' % ('integrated' if integ else 'sampled'), 'system.TimeDependentSystemWithField.get_propagators',
+                        scen_ff(integ), post_ff, c15.sys_registry(), PROP, invoke=invoke_ff,
+                        replay=lambda ob: {'func': 'field_free_reduces_to_tempo', 'inputs': {'obligation': ob['name']}}))
     # MeanFieldTempo's own step: the system propagators are asked for the CURRENT step with the current field and derivative
     # (the contract of the back end, shared with C14; discharged here too so that this check stands on its own)
     from . import c14
